@@ -274,8 +274,15 @@ def merge_abstract(A_ext, gen, start):
         for k in TASK_CMP:
             if g[k] != e[k]:
                 diffs.append("task %s.%s: generated %r parsed %r" % (g["name"], k, g[k], e[k]))
-        gd = sorted((d["p"], d["onstart"], d["gap"]) for d in g["deps"])
-        ed = sorted((d["p"], d["onstart"], d["gap"]) for d in e["deps"])
+        def alldeps(tasks, t):
+            out = set()
+            while True:
+                out |= {(d["p"], d["onstart"], d["gap"]) for d in t["deps"]}
+                if not t["parent"]:
+                    return sorted(out)
+                t = tasks[t["parent"] - 1]
+        gd = alldeps(gen["tasks"], g)
+        ed = alldeps(A_ext["tasks"], e)
         if gd != ed:
             diffs.append("task %s.deps: generated %r parsed %r" % (g["name"], gd, ed))
         gl = sorted((d["kind"], d["valSec"], d["res"]) for d in g["limits"])
@@ -294,7 +301,7 @@ def merge_abstract(A_ext, gen, start):
         for k in RES_CMP:
             gv, ev = g[k], e[k]
             if k == "leaves":
-                gv, ev = sorted(gv), sorted(ev)
+                gv, ev = sorted(set(map(tuple, gv))), sorted(set(map(tuple, ev)))
             if gv != ev:
                 diffs.append("res %s.%s: generated %r parsed %r" % (g["name"], k, gv, ev))
         gl = sorted((d["kind"], d["valSec"]) for d in g["limits"])
